@@ -43,7 +43,7 @@ PROPS = {
                           eng("catching", "C05", 600, 10000, ["dest", "panic"]),
                           dict(name="fe", family="fe", profile="fe", quick=700, thorough=10000, tags=["dest", "panic"]),   # the input representations of the front ends: lists of one entry, blank entries, []-suffixed names
                           sat("helpers", "helpers", 500, 6000, ["fields"], shard=300)]),   # a schema names the fields it was given, not those of schemas derived from it later (fields it does not name are never written)   # destinations next to nodes that catch: a leaf holds the coercion of its own input),
-    "C04": dict(theorems=["C04_parse_absent_iff", "C04_falsy_values_are_present", "C04_validate_absent_examples", "C04_absent_default", "C04_absent_required", "C04_absent_optional", "C04_slice_absent_required", "C04_slice_absent_optional", "C04_ptr_absent_notnil", "C04_ptr_absent_optional", "C04_engine_computes_semantics", "C04_preprocess_output_is_parsed", "C04_preprocess_output_is_validated", "C04_preprocess_blank_output_is_absent"], cone=ENGINE_CONE + ["Proofs/AbsentP.v"], rule=ENGINE_RULE,
+    "C04": dict(theorems=["C04_parse_absent_iff", "C04_falsy_values_are_present", "C04_validate_absent_examples", "C04_absent_default", "C04_absent_required", "C04_absent_optional", "C04_slice_absent_required", "C04_slice_absent_optional", "C04_ptr_absent_notnil", "C04_ptr_absent_optional", "C04_engine_computes_semantics", "C04_preprocess_output_is_parsed", "C04_preprocess_output_is_validated", "C04_preprocess_blank_output_is_absent", "C04_ptr_present_hands_input_on", "C04_preprocess_blank_output_behind_pointer"], cone=ENGINE_CONE + ["Proofs/AbsentP.v"], rule=ENGINE_RULE,
                 families=[eng("engine", "C04", 1200, 20000, ["nil", "issues", "dest", "calls", "panic"]),
                           # Required / Optional / Default / Catch called in every order on one schema
                           dict(name="builder", family="builder", profile="default", quick=900, thorough=15000, shard=150, tags=["nil", "issues", "dest", "panic"]),
@@ -85,7 +85,7 @@ PROPS = {
                           # the map of a call after arbitrary earlier calls (Collect helpers, undecodable bodies): still keyed by its own issues' paths
                           dict(name="history", family="history", profile="C07", quick=400, thorough=5000, tags=["issues", "first", "isolation", "issue_aliased", "held_result", "panic"]),
                           dict(name="fe", family="fe", profile="fe", quick=700, thorough=8000, tags=["issues", "first", "panic", "nested_source_tag"])]),
-    "C12": dict(theorems=["C12_engine_computes_semantics", "C12_test_receives_the_tested_value", "C12_pts_prefix_in_order", "C12_pts_skipped_when_an_issue_exists", "C12_preprocess_error_skips_schema", "C12_preprocess_type_mismatch_skips_schema", "C12_ctx_values_are_this_calls", "C12_ctx_get_is_the_calls_last_option", "C12_ctx_last_call_wins", "C12_ctx_other_keys_nil", "C12_transforms_of_a_catching_node"], cone=ENGINE_CONE + ["Proofs/CatchP.v", "Proofs/ExactP.v", "Model/Objects.v", "Proofs/ObjectsP.v", "Model/Options.v", "Proofs/OptionsP.v"], rule=ENGINE_RULE,
+    "C12": dict(theorems=["C12_engine_computes_semantics", "C12_test_receives_the_tested_value", "C12_pts_prefix_in_order", "C12_pts_skipped_when_an_issue_exists", "C12_preprocess_error_skips_schema", "C12_preprocess_type_mismatch_skips_schema", "C12_ctx_values_are_this_calls", "C12_ctx_get_is_the_calls_last_option", "C12_ctx_last_call_wins", "C12_ctx_other_keys_nil", "C12_transforms_of_a_catching_node", "C12_custom_root_parse", "C12_custom_root_wrong_type", "C12_custom_root_validate", "C12_custom_root_engine"], cone=ENGINE_CONE + ["Proofs/CatchP.v", "Proofs/ExactP.v", "Model/Objects.v", "Proofs/ObjectsP.v", "Model/Options.v", "Proofs/OptionsP.v"], rule=ENGINE_RULE,
                 families=[eng("engine", "C12", 1200, 20000, ["calls", "args", "ctx", "haserr", "panic"]),
                           # callbacks after arbitrary earlier calls (undecodable request bodies included): still their own node, still this call's context
                           dict(name="history", family="history", profile="C07", quick=500, thorough=6000, tags=["calls", "args", "ctx", "panic"]),
